@@ -5,13 +5,35 @@ ROOT = pathlib.Path(__file__).resolve().parent.parent
 ld = importlib.machinery.SourceFileLoader("chk", str(ROOT / "check"))
 sp = importlib.util.spec_from_loader("chk", ld); chk = importlib.util.module_from_spec(sp); ld.exec_module(chk)
 
+BASE = ("Trusted: Lean 4 kernel; axioms propext, Classical.choice, Quot.sound only (audited by #print axioms on every run, no sorry / native_decide / own axioms); "
+        "tools/translate.py + tools/dump_compiled.py (their output is pinned by kernel-checked decide facts); the correspondence harnesses and their oracles; "
+        "NumPy / SciPy / SymPy on the implementation side. ")
 NOTES = {
- "default": "Lean 4 kernel; axioms propext, Classical.choice, Quot.sound only (audited by #print axioms on every run); the translator of "
-            "algorithms.py and the dump of the compiler output (their result is pinned by kernel-checked `decide` facts); the correspondence "
-            "harness and its exact-arithmetic oracle; SymPy/NumPy on the implementation side",
+ "C01": "Full theorem for every accepted problem of the model (both flag settings). Floating point: the identity is tolerance-tested against the exact model value (1e-9 relative), not proved.",
+ "C02": "Full theorem for the model; floating point tolerance-tested.",
+ "C03": "Full theorem (gauge + uniqueness) for the model; the independent order-by-order solver of the statement is replaced by the uniqueness theorem (any solver satisfying the defining equations returns the same series).",
+ "C04": "Power-trace and characteristic-polynomial forms proved for the model (all orders; truncation for power traces); the analytic statement about numerical eigenvalues of a float matrix is not modelled.",
+ "C05": "PARTIAL: proved only for problems whose kept pairs are degenerate; the full statement is refuted by a kernel-checked counterexample = known finding D5 (KNOWN-FINDING line, exit 0).",
+ "C06": "PARTIAL: theorem for any environment meeting ImplicitSpec (Hermitian algorithm); that the code's implicit environment (projector products, sparse LU, KPM) meets it, and the non-Hermitian algorithm, rest on the correspondence.",
+ "C07": "PARTIAL: operator-algebra and solver theorems + generic naturality; the naturality instance for the Fock representation is not proved; eight systems compared with Fock matrices through order 3.",
+ "C08": "Full theorems on the model of NumberOrderedForm (representation invariant WF2, fermions last); SymPy simplification and non-polynomial functions of number operators are not modelled.",
+ "C09": "Proof for the shipped programs (regenerated data); arbitrary programs by correspondence against the proved-sound reference evaluator (generated programs) — a scope function may receive only input series as series arguments in that stream.",
+ "C10": "Full theorem on the machine model for every history; the mutation clause (caller data, returned values) is decided by value-level snapshots in the harness only.",
+ "C11": "Full theorem on the machine model for every fault plan; tied to series.py by correspondence (fault plans on random series networks, operator faults in products).",
+ "C12": "Causality theorem for every program + exactly-once on the machine; definition-time laziness of block_diagonalize is decided by the logging-Hamiltonian correspondence.",
+ "C13": "PARTIAL: scale, permute, pad, power substitution proved (transport through uniqueness); merging two parameters by correspondence; key/symbol/Taylor bookkeeping: Taylor model proved, the rest correspondence.",
+ "C14": "PARTIAL: eigenbasis rotation, carrier naturality and Taylor expansion proved; container / designation normalisation (glue around NumPy, SciPy, SymPy objects) by correspondence (13 formats + presentation variants).",
+ "C15": "PARTIAL: shift, conjugation, rotation in degenerate levels, relabelling/regrouping of blocks, scaling of H proved; permutation of states across blocks and direct sums by correspondence.",
+ "C16": "PARTIAL: diagonal, direct (any admissible pivot set), second-quantised solvers and KPM loop control proved; sparse LU, QR pivot choice, Chebyshev convergence are runtime (residual-tested).",
+ "C17": "Full theorems on the (R, L) model; SciPy's LinearOperator composition classes are exercised (composites, adjoints, right multiplication), not modelled.",
+ "C18": "Full theorems (loop = Cauchy sum, tuple order, half-sum, value = power-series product); request logs are compared with the model but decide only as a broken correspondence.",
+ "C19": "PARTIAL: exactly-once, values, self-reference on the machine proved; the selection rules of index expressions are NumPy's (trusted reference), compared on the dense array.",
+ "C20": "PARTIAL: set-up decision logic modelled and characterised exactly; shared energies proved for both algorithms; SymPy's Hermiticity test, the numerical orthonormality test and float finiteness by correspondence.",
 }
 checks = []
 for pid, spec in sorted(chk.PROPS.items()):
+    spec = chk.with_props(pid, spec)
+    own = [t.split('.')[-1] for t in spec['theorems'] if t.startswith('Pyma.Props.')]
     checks.append({
         "property_id": pid,
         "quick_cmd": f"./check {pid} --tier quick",
@@ -20,11 +42,12 @@ for pid, spec in sorted(chk.PROPS.items()):
         "replay_cmd_template": f"./check {pid} --replay {{path}}",
         "engine": "lean+correspondence",
         "level_claimed": {"category": spec["level"],
-                          "text": "theorems about the Lean model for all inputs (" + ", ".join(t.split(".")[-1] for t in spec["theorems"]) +
-                                  "), re-checked on every run against data regenerated from the current source, plus a correspondence "
-                                  "between the model's executable definitions and the implementation on generated inputs",
+                          "text": "theorems about the Lean model for all inputs (lean/PymaVerif/Props/" + pid + ".lean: " + ", ".join(own) +
+                                  "), re-checked on every run — for the parts translated from the source against data regenerated from the current tree — plus a "
+                                  "correspondence between the model's executable definitions and the implementation on generated inputs (streams: " +
+                                  ", ".join(st[0] for st in (spec["corr"] if isinstance(spec["corr"], list) else [spec["corr"]])) + ")",
                           "design_ref": f"DESIGN.md §4 {pid}"},
-        "level_note": NOTES["default"],
+        "level_note": BASE + NOTES[pid],
         "technique": "machine-checked proof in Lean 4 + differential correspondence",
     })
 manifest = {
@@ -37,7 +60,7 @@ manifest = {
                  "kind_free_text": "Lean 4 proofs (lake), generated model data, JSON-lines driver executable, Python harnesses"}],
     "checks": checks,
     "not_applicable": [],
-    "notes": "prototype manifest generated from the runner's property table",
+    "notes": "generated by tools/gen_manifest.py from the runner's property table; design, status, defects found and seeded changes: DESIGN.md section 9",
 }
 (ROOT / "MANIFEST.json").write_text(json.dumps(manifest, indent=1, ensure_ascii=False))
 print(len(checks), "checks")
